@@ -12,6 +12,8 @@ instantiated with this repository's constructors (each line is a necessary condi
  e the occurs check descends into list heads and tails and into all compound children;
  f walk follows bindings only from bound variables;
  g State::unify: fresh extension, unify_rec, then process_extension with that same extension.
+ (round 5, shared with C20) compound values: children() / walk* / eq / hash of the library impls (pairs,
+   Option) and of the derive templates see every field, each field itself; CompoundObject::is_term.
 """
 import streams
 import sym
@@ -449,6 +451,18 @@ def run(ctx, fb, cfg):
     if fn:
         t = sym.Evaluator(lib).fn_term(fn)
         ctx.expect(unify(pat("walk_star(@1, @0)"), tables.result(t)) is not None and not tables.semis(t), R + "K3.walk-star-of-fields", "LTerm|walk_star", site_of(fn), "a term-valued compound field is resolved with walk*; found %s" % show(t, maxdepth=4)[:160])
+    # compound values: children() lists every field, walk* / eq / hash of the library impls (pairs, Option) and of
+    # the derive templates see every field, each field itself (shared with C20)
+    import C15
+    import C20
+
+    C20.check_library(C15._Prefixed(ctx, "C01"), lib)
+    if cfg == "lib-default":
+        import macrolib
+
+        S = macrolib.load_sem(ctx, fb)
+        if S is not None:
+            C20.check_derive(C15._Prefixed(ctx, "C01"), S)
     check_occurs(ctx, lib, R + "K5.occurs")
     check_walk(ctx, lib, R + "K6.walk")
     check_state_unify(ctx, lib, R + "K3.state-unify")
